@@ -306,6 +306,10 @@ def _eval_sum(val: list[RealValue], ctx: Context):
             accum = ops.add(accum, x, ctx=ctx)
         return accum
 
+def _is_neg_zero(x: RealValue) -> bool:
+    # an exact zero (a `Fraction`) is unsigned, i.e., +0
+    return isinstance(x, Float) and x.is_zero() and x.s
+
 def _unchecked_min(vals: list[RealValue]):
     # propagate any NaN input
     for x in vals:
@@ -317,9 +321,7 @@ def _unchecked_min(vals: list[RealValue]):
     for x in vals[1:]:
         if x < result:
             result = x
-        elif (x == result
-            and isinstance(x, Float) and isinstance(result, Float)
-            and x.s and not result.s):
+        elif x == result and _is_neg_zero(x) and not _is_neg_zero(result):
             result = x  # x is -0, result is +0 → prefer -0 for min
     return result
 
@@ -339,9 +341,7 @@ def _unchecked_max(vals: list[RealValue]):
     for x in vals[1:]:
         if x > result:
             result = x
-        elif (x == result
-            and isinstance(x, Float) and isinstance(result, Float)
-            and not x.s and result.s):
+        elif x == result and _is_neg_zero(result) and not _is_neg_zero(x):
             result = x  # x is +0, result is -0 → prefer +0 for max
     return result
 
